@@ -235,6 +235,72 @@ theorem planeNormal_perp (A1 A2 : V3 K) (nn : K) (hnn : nn ≠ 0) (h : V3.cross 
     simp only [planeNormal, V3.map, v3zero, V3.mk.injEq, div_eq_zero_iff, hnn, or_false] at e
     ext <;> simp [v3zero, e.1, e.2.1, e.2.2]
 
+/-! ### the default plotting axis and the three interchangeable kinds of query -/
+
+theorem isclose_zero_zero : isclose (0 : K) 0 = true := by
+  rw [isclose_iff]; simp only [sub_zero, abs_zero, mul_zero, add_zero]; exact le_of_lt tolA_pos
+
+theorem a12ToPos_inplane (A1 A2 : V3 K) (nn : K) (hnn : nn ≠ 0) (a : K × K) :
+    V3.dot (planeNormal A1 A2 nn) (a12ToPos A1 A2 a) = 0 := by
+  simp only [planeNormal, a12ToPos, V3.map, V3.dot, V3.cross, V3.smul, add_x, add_y, add_z]
+  field_simp
+  ring
+
+/-- with the DEFAULT x axis (`xvect=None`, the Cartesian `a1vect`) the in-plane guard passes in both directions
+    and `pos_to_xy` / `xy_to_pos` are mutual inverses — in any cell (`A1`, `A2` are arbitrary non-parallel
+    Cartesian vectors: hexagonal, monoclinic, triclinic, rotated), for any non-zero normalisations. -/
+theorem xy_default_inverse (A1 A2 : V3 K) (nn nx ny nz : K) (hnn : nn ≠ 0) (hx : nx ≠ 0) (hy : ny ≠ 0) (hz : nz ≠ 0)
+    (h : V3.cross A1 A2 ≠ v3zero) :
+    (∀ q : K × K, ∃ p, xyToPosApi A1 A2 nn nx ny nz none q = some p ∧ posToXYApi A1 A2 nn nx ny nz none p = some q) ∧
+    (∀ a : K × K, ∃ q, posToXYApi A1 A2 nn nx ny nz none (a12ToPos A1 A2 a) = some q ∧
+      xyToPosApi A1 A2 nn nx ny nz none q = some (a12ToPos A1 A2 a)) := by
+  obtain ⟨p1, _, p3⟩ := planeNormal_perp A1 A2 nn hnn h
+  have hA1 : A1 ≠ v3zero := by
+    intro e; apply h; rw [e]; simp [V3.cross, v3zero]
+  have hok : xvectOk (xyDefaultX A1 none) (planeNormal A1 A2 nn) = true := by
+    simp only [xvectOk, xyDefaultX, Option.getD_none, p1]; exact isclose_zero_zero
+  obtain ⟨i1, i2⟩ := pos_xy_inverse A1 (planeNormal A1 A2 nn) nx ny nz hx hy hz p1 hA1 p3
+  constructor
+  · intro q
+    refine ⟨xyToPos (xyTransform A1 (planeNormal A1 A2 nn) nx ny nz) q, ?_, ?_⟩
+    · simp only [xyToPosApi, hok, if_true]; rfl
+    · simp only [posToXYApi, hok, if_true]
+      exact congrArg some (i1 q)
+  · intro a
+    refine ⟨posToXY (xyTransform A1 (planeNormal A1 A2 nn) nx ny nz) (a12ToPos A1 A2 a), ?_, ?_⟩
+    · simp only [posToXYApi, hok, if_true]; rfl
+    · simp only [xyToPosApi, hok, if_true]
+      exact congrArg some (i2 _ (a12ToPos_inplane A1 A2 nn hnn a))
+
+/-- **a position given in fractional, Cartesian or plotting coordinates is accepted interchangeably**: the same
+    physical point `a1 A1 + a2 A2` asked for as `pos=` or as `x=, y=` (default axis, or any in-plane axis `X`)
+    yields the value at `(a1, a2)` — for every function `gam` of the fractional coordinates (`E_gsf`, `delta`). -/
+theorem E_interchangeable (gam : K → K → K) (A1 A2 : V3 K) (nn nx ny nz : K) (hnn : nn ≠ 0) (hx : nx ≠ 0)
+    (hy : ny ≠ 0) (hz : nz ≠ 0) (h : V3.cross A1 A2 ≠ v3zero) (a : K × K) :
+    EofQuery gam A1 A2 nn nx ny nz (.a12 a) = some (gam a.1 a.2) ∧
+    EofQuery gam A1 A2 nn nx ny nz (.pos (a12ToPos A1 A2 a)) = some (gam a.1 a.2) ∧
+    (∀ xv : Option (V3 K), (∀ X, xv = some X → V3.dot X (planeNormal A1 A2 nn) = 0 ∧ X ≠ v3zero) →
+      ∃ q, posToXYApi A1 A2 nn nx ny nz xv (a12ToPos A1 A2 a) = some q ∧
+        EofQuery gam A1 A2 nn nx ny nz (.xy q xv) = some (gam a.1 a.2)) := by
+  have hp := (a12_pos_inverse A1 A2 h).1 a
+  refine ⟨rfl, ?_, ?_⟩
+  · simp only [EofQuery, Query.toA12?, hp, Option.map_some]
+  · intro xv hxv
+    obtain ⟨p1, _, p3⟩ := planeNormal_perp A1 A2 nn hnn h
+    have hA1 : A1 ≠ v3zero := by
+      intro e; apply h; rw [e]; simp [V3.cross, v3zero]
+    have hX : V3.dot (xyDefaultX A1 xv) (planeNormal A1 A2 nn) = 0 ∧ xyDefaultX A1 xv ≠ v3zero := by
+      cases xv with
+      | none => exact ⟨p1, hA1⟩
+      | some X => exact hxv X rfl
+    have hok : xvectOk (xyDefaultX A1 xv) (planeNormal A1 A2 nn) = true := by
+      simp only [xvectOk, hX.1]; exact isclose_zero_zero
+    obtain ⟨_, i2⟩ := pos_xy_inverse (xyDefaultX A1 xv) (planeNormal A1 A2 nn) nx ny nz hx hy hz hX.1 hX.2 p3
+    refine ⟨posToXY (xyTransform (xyDefaultX A1 xv) (planeNormal A1 A2 nn) nx ny nz) (a12ToPos A1 A2 a), ?_, ?_⟩
+    · simp only [posToXYApi, hok, if_true]
+    · simp only [EofQuery, Query.toA12?, xyToPosApi, hok, if_true, Option.bind_some,
+        i2 _ (a12ToPos_inplane A1 A2 nn hnn a), hp, Option.map_some]
+
 /-- data-model round trip: writing the record with unit factors and reading it back is the identity. -/
 theorem model_roundtrip (ue ul : K) (hue : ue ≠ 0) (hul : ul ≠ 0) (g : GsfRecord K) :
     ofModel ue ul (toModel ue ul g) = g := by
@@ -310,6 +376,40 @@ theorem total_is_sum (lg : K → K) (gam : V3 K → K) (s : Settings K) (x : Lis
         + longrangeEnergy s.pi s.logL s.Kt s.burgers + stressEnergy s.fullstress s.cdiffstress s.τ1 x d
         + nonlocalEnergy s.αs x d + surfaceEnergy s.cdiffsurface s.β x d := rfl
 
+/-- … and the total is the sum of the list of the six terms of the object. -/
+theorem total_is_sum_of_terms (lg : K → K) (gam : V3 K → K) (s : Settings K) (x : List K) (d : List (V3 K)) :
+    totalEnergy lg gam s x d = lsum (termsOf lg gam s x d) := by
+  simp only [totalEnergy, termsOf, lsum]; ring
+
+/-! ## the object under edits: the energies read the CURRENT state, nothing else -/
+
+/-- the six terms of an object are a function of its current settings: two objects with the same settings give
+    the same terms whatever their histories (a memoised term violates this in the implementation; the tie runs
+    edit sequences on one real object against `Obj.run`). -/
+theorem energy_state_only (lg : K → K) (gam : V3 K → K) (o₁ o₂ : Obj K) (h : o₁.s = o₂.s) (x : List K) (d : List (V3 K)) :
+    o₁.terms lg gam x d = o₂.terms lg gam x d ∧ o₁.total lg gam x d = o₂.total lg gam x d := by
+  simp only [Obj.terms, Obj.total, h, and_self]
+
+/-- last write wins: after any history, setting the cut-off (setter, or `solve(cutofflongrange=…)`) makes the
+    long-range term `(b·K·b) ln(L_new) / (2π)` with the object's `K`, `b`, `π`, which the edit does not touch. -/
+theorem longrange_after_edit (o : Obj K) (ops : List (Op K)) (l : K) (kw : SolveKw K) (res : List K) :
+    let o' := o.run ops
+    (longrangeEnergy (o'.apply (.setLogL l)).s.pi (o'.apply (.setLogL l)).s.logL (o'.apply (.setLogL l)).s.Kt
+        (o'.apply (.setLogL l)).s.burgers = longrangeEnergy o'.s.pi l o'.s.Kt o'.s.burgers) ∧
+    (longrangeEnergy (o'.apply (.solve { kw with logL := some l } res)).s.pi
+        (o'.apply (.solve { kw with logL := some l } res)).s.logL (o'.apply (.solve { kw with logL := some l } res)).s.Kt
+        (o'.apply (.solve { kw with logL := some l } res)).s.burgers = longrangeEnergy o'.s.pi l o'.s.Kt o'.s.burgers) :=
+  ⟨rfl, rfl⟩
+
+/-- frame: each setter changes its own field only; `load` replaces the whole state. -/
+theorem setters_frame (o o' : Obj K) (t : V3 K) (a : List K) (b : M3 K) (l : K) (f : Bool) :
+    (o.apply (.setTau t)).s = { o.s with τ1 := t } ∧ (o.apply (.setAlpha a)).s = { o.s with αs := a } ∧
+    (o.apply (.setBeta b)).s = { o.s with β := b } ∧ (o.apply (.setLogL l)).s = { o.s with logL := l } ∧
+    (o.apply (.setFull f)).s = { o.s with fullstress := f } ∧ (o.apply (.setCdE f)).s = { o.s with cdiffelastic := f } ∧
+    (o.apply (.setCdS f)).s = { o.s with cdiffsurface := f } ∧ (o.apply (.setCdT f)).s = { o.s with cdiffstress := f } ∧
+    (o.apply (.setTau t)).x = o.x ∧ (o.apply (.setTau t)).d = o.d ∧ o.apply (.load o') = o' :=
+  ⟨rfl, rfl, rfl, rfl, rfl, rfl, rfl, rfl, rfl, rfl, rfl⟩
+
 /-! ## solve -/
 
 /-- **solve leaves the two end disregistries fixed — for every output of the optimiser** (any list `res`,
@@ -359,6 +459,20 @@ theorem recompose_decompose (first last : V3 K) (inner : List (V3 K)) (hy : ∀ 
   rw [this]
 
 
+/-- `solve(**kwargs)` = the given keywords applied as setters (absent ones keep the current value), then the
+    optimiser output embedded between the end rows of the (possibly new) guess; the stress term afterwards reads
+    `fullstress`, `cdiffstress`, `tau` of the NEW state and none of the other finite-difference flags. -/
+theorem solve_kwargs (o : Obj K) (kw : SolveKw K) (res : List K) :
+    (o.apply (.solve kw res)).s = (o.applyKw kw).s ∧
+    (o.apply (.solve kw res)).x = kw.x.getD o.x ∧
+    (o.apply (.solve kw res)).d = solveResult res (kw.d.getD o.d) ∧
+    (kw.d.getD o.d ≠ [] → (o.apply (.solve kw res)).d.head? = (kw.d.getD o.d).head? ∧
+        (o.apply (.solve kw res)).d.getLast? = (kw.d.getD o.d).getLast?) ∧
+    (o.applyKw { cdiffstress := kw.cdiffstress }).s.cdiffelastic = o.s.cdiffelastic ∧
+    (o.applyKw { cdiffelastic := kw.cdiffelastic }).s.cdiffstress = o.s.cdiffstress := by
+  refine ⟨rfl, rfl, rfl, fun hd => ?_, rfl, rfl⟩
+  exact solve_ends_fixed res (kw.d.getD o.d) hd
+
 /-! ## non-vacuity: the hypotheses of `E_interpolates` are satisfiable with non-constant data -/
 
 section nonvacuity
@@ -401,6 +515,23 @@ example : E Int.floor exF (1/4) (1/4) (1/2 + 1) (0 - 2) = 3 := by
 
 example : (⟨⟨2, 1, 1⟩, ⟨1, 3, 2⟩, ⟨1, 2, 4⟩⟩ : M3 ℚ).transpose = ⟨⟨2, 1, 1⟩, ⟨1, 3, 2⟩, ⟨1, 2, 4⟩⟩ := by decide +kernel
 example : V3.cross (⟨1, 0, 0⟩ : V3 ℚ) ⟨1/2, 1, 0⟩ ≠ v3zero := by decide +kernel
+
+/-! hexagonal cell (vects not symmetric), default axis: both directions pass the guard and invert each other; an
+    alternative in-plane axis satisfies the hypothesis of `E_interchangeable`; an out-of-plane axis is refused. -/
+example : xyToPosApi (K := ℚ) ⟨3, 0, 0⟩ ⟨-3/2, 13/5, 0⟩ (39/5) 3 3 1 none (1, 2) = some ⟨1, 2, 0⟩ := by decide +kernel
+example : posToXYApi (K := ℚ) ⟨3, 0, 0⟩ ⟨-3/2, 13/5, 0⟩ (39/5) 3 3 1 none ⟨1, 2, 0⟩ = some (1, 2) := by decide +kernel
+example : V3.dot (⟨-3/2, 13/5, 0⟩ : V3 ℚ) (planeNormal ⟨3, 0, 0⟩ ⟨-3/2, 13/5, 0⟩ (39/5)) = 0
+    ∧ (⟨-3/2, 13/5, 0⟩ : V3 ℚ) ≠ v3zero := by decide +kernel
+example : posToXYApi (K := ℚ) ⟨3, 0, 0⟩ ⟨-3/2, 13/5, 0⟩ (39/5) 3 3 1 (some ⟨3, 0, 1⟩) ⟨1, 2, 0⟩ = none := by decide +kernel
+example : EofQuery (K := ℚ) (fun a b => a + 10 * b) ⟨3, 0, 0⟩ ⟨-3/2, 13/5, 0⟩ (39/5) 3 3 1
+    (.xy (3 * (1/2) + (-3/2) * (1/4), (13/5) * (1/4)) none) = some (1/2 + 10 * (1/4)) := by decide +kernel
+
+/-- an edit history on one object: the long-range term follows the last cut-off written. -/
+example : let o : Obj ℚ := ⟨⟨⟨⟨2, 0, 0⟩, ⟨0, 3, 0⟩, ⟨0, 0, 1⟩⟩, ⟨1, 0, 2⟩, ⟨⟨1, 0, 0⟩, ⟨0, 1, 0⟩, ⟨0, 0, 1⟩⟩, ⟨0, 0, 0⟩, [0],
+      ⟨⟨0, 0, 0⟩, ⟨0, 0, 0⟩, ⟨0, 0, 0⟩⟩, 7, 3, true, false, true, false⟩, [], []⟩
+    let o' := o.run [.setLogL 5, .solve { logL := some 2 } [], .setCdT true]
+    longrangeEnergy o'.s.pi o'.s.logL o'.s.Kt o'.s.burgers = (2 * 1 + 1 * 4) * 2 / (2 * 3) ∧ o'.s.cdiffstress = true
+      ∧ o'.s.cdiffelastic = false := by decide +kernel
 
 end nonvacuity
 
